@@ -84,7 +84,7 @@ def run(ck):
 
     # (1) exhaustive: TLC grows every sequence of <= k pieces over the full tag/modifier alphabet
     pieces = [lu.text("a"), lu.text("_"), lu.text("n")] + lu.tag_pieces()
-    k = 2 if quick else 3
+    k = 2
     r, recs = lu.run_lexer("C12", "grow", grow=dict(pieces=pieces, cfgs=cfgs, max=k), invariants=C12_INVARIANTS,
                            coverage=quick, timeout=3000)
     ck.add_tlc(r, f"Lexer (grow, <= {k} of {len(pieces)} pieces x 4 trim/lstrip settings)")
@@ -95,10 +95,19 @@ def run(ck):
         raise core.MachineryError("Lexer.tla printed no cases")
     check_records(ck, recs, by_name)
     ck.extra["exhaustive_cases"] = len(recs)
+    if not quick:
+        # every sequence of <= 3 pieces over text and block / comment / variable tags (a raw block
+        # needs open + body + close, those are covered by <= 2 above and by the generated sources)
+        p3 = [p for p in pieces if p["k"] not in ("rawopen", "rawclose")]
+        r, recs = lu.run_lexer("C12", "grow3", grow=dict(pieces=p3, cfgs=cfgs, max=3), invariants=C12_INVARIANTS,
+                               timeout=3000)
+        ck.add_tlc(r, f"Lexer (grow, <= 3 of {len(p3)} pieces x 4 trim/lstrip settings)")
+        check_records(ck, recs, by_name)
+        ck.extra["exhaustive_cases_3"] = len(recs)
 
     # (2) random longer sources over the rich alphabet (tabs, other whitespace, \r\n, multi-line
     #     tags, comment / raw bodies with delimiter look-alikes), all four settings each
-    n = 1200 if quick else 40000
+    n = 1200 if quick else 15000
     allcfgs = cfgs + four_cfgs(keep=True) + four_cfgs(nl="rn")
     by_name.update({c["name"]: c for c in allcfgs})
     total = 0
